@@ -255,6 +255,27 @@ def check_config(cfg, w, rep):
     is_async = not cfg.startswith("sync")
     _import_c02(cfg, w, rep)
     check_async_flush(cfg, w, rep)
+    # R7: the two places where a failed publication step is deliberately tolerated ("somebody else already put it there") do so
+    # only under a real existence check of the same destination that follows links: close() (C03 e) and the linker (C19 d)
+    from ..framework import Report as _Rp
+    from . import c03 as _c03
+    _sb = _Rp("C03")
+    _c03.check_config(cfg, w, _sb)
+    _subs = [(_sb, ("e-failed-publication",))]
+    if "link_to" in cfg:
+        from . import c19 as _c19
+        _sb = _Rp("C19")
+        _c19.check_config(cfg, w, _sb)
+        _subs.append((_sb, ("d-existing-destination",)))
+    for _sb, _rules in _subs:
+        for (c_, rule, k, desc, ok) in _sb.obligations:
+            if rule in _rules and ok:
+                rep.ob(cfg, "R7/" + rule, k, desc)
+        for k, v in _sb.violations.items():
+            if v.rule in _rules:
+                rep.violation("R7:%s" % k, "a failed publication step could be reported as success — " + v.msg, loc=v.loc, config=cfg, rule="R7/" + v.rule)
+    # R8: the state left behind by a failing call: no write / commit / read path "cleans up" by deleting a content file (shared)
+    check_who_may_remove_content(cfg, w, rep, "R8")
     # R6: a future of one of the runtimes' filesystem functions that is created and dropped without `.await` never runs —
     # neither the operation nor its error exists
     for e in w.inv.unawaited:
